@@ -251,6 +251,37 @@ func (w *World) structObligations(prop string) []*Obligation {
 			out = append(out, w.mapOrderObligations(sf.Spec)...)
 			continue
 		}
+		if sf.Kind == "json-marshaler" {
+			o.ID = fmt.Sprintf("STRUCT#json-marshaler:%s#0", sf.Spec)
+			o.Status = "sat"
+			o.Model = "declaration not found"
+			if k := strings.LastIndex(spec, "."); k > 0 {
+				if t, err := w.resolveType(spec[:k], nil); err == nil {
+					if st, ok := under(t).(*types.Struct); ok {
+						for i := 0; i < st.NumFields(); i++ {
+							if st.Field(i).Name() != spec[k+1:] {
+								continue
+							}
+							ft := types.Unalias(st.Field(i).Type())
+							wt, err := w.resolveType(want, nil)
+							hasMethod := false
+							if err == nil {
+								ms := types.NewMethodSet(types.NewPointer(wt))
+								hasMethod = ms.Lookup(nil, "MarshalJSON") != nil
+							}
+							if err == nil && types.Identical(ft, wt) && hasMethod {
+								o.Status = "unsat"
+								o.Model = ""
+							} else {
+								o.Model = fmt.Sprintf("field %s is declared as %s, not as %s: encoding/json does not call (%s).MarshalJSON for it", spec, ft, want, want)
+							}
+						}
+					}
+				}
+			}
+			out = append(out, o)
+			continue
+		}
 		if sf.Kind == "json-numbers" {
 			o.ID = fmt.Sprintf("STRUCT#json-numbers:no number of package %s is marshalled with omitempty#0", sf.Spec)
 			o.Text = "json-numbers " + sf.Spec
@@ -898,6 +929,23 @@ func cmdCheck(args []string) int {
 		fmt.Printf("UNBOUND-CLAUSE %s (the clause names something the function no longer has; no obligation is generated for it, the other clauses of the function are checked)\n", u)
 	}
 	for _, u := range br.outOfSubset {
+		// a contract whose clauses were proved names a format literal that no statement of the module prints any more:
+		// the emitted statement the clauses pin down is gone or respelled (same reasoning as for vanished closures)
+		if k := strings.Index(u, ": contract of "); k > 0 && strings.Contains(u, "names the format literal") {
+			fk := u[:k]
+			hit := ""
+			for g, e := range locked {
+				if e.Discharged > 0 && strings.HasPrefix(g, fk+"#") && (strings.HasPrefix(g[len(fk)+1:], "POST:") || strings.HasPrefix(g[len(fk)+1:], "ITER:") || strings.HasPrefix(g[len(fk)+1:], "INV-")) {
+					if hit == "" || g < hit {
+						hit = g
+					}
+				}
+			}
+			if hit != "" {
+				o := &Obligation{ID: hit + "#0", Kind: "POST", Func: fk, Status: "vanished", Solver: "go/ssa", Model: u[k+2:]}
+				report(o, "the emitted statement a proved contract names is no longer printed: "+u[k+2:])
+			}
+		}
 		fmt.Printf("OUT-OF-SUBSET %s\n", u)
 	}
 	if nLocked == 0 && violations == 0 {
